@@ -533,9 +533,31 @@ func runC14(c *core.Ctx, drv string, idx int) {
 		add(proto.Op{K: "dump"}, meta{kind: "post", fs: fs})
 		add(proto.Op{K: "image", Dir: filepath.Join(dir, fmt.Sprintf("img%d", len(fails)), "data")}, meta{kind: "other"})
 	}
+	// in the same session, after the refused statements: the tables they
+	// named get enough new rows to split their right-most leaf, then every
+	// row is updated - whatever a refused statement left behind about the
+	// rows it had looked at must not meet these statements
+	{
+		seen := map[string]bool{}
+		for _, fs := range fails {
+			t := h.DB.Table(fs.st.Table)
+			if t == nil || seen[t.Name] || !gen.Usable(t) || fs.st.Kind == "create" {
+				continue
+			}
+			seen[t.Name] = true
+			b := h.Burst(t, r.Range(9, 14))
+			add(proto.Op{K: "stmt", Stmt: b}, meta{kind: "late", st: b})
+			upd := &proto.Stmt{Kind: "update", Table: t.Name, Sets: []proto.SetItem{{Col: "g", Val: proto.Int(77)}}}
+			if f, _, _, err := h.DB.Apply(upd); f == "" && err == nil {
+				add(proto.Op{K: "stmt", Stmt: upd}, meta{kind: "late", st: upd})
+			}
+			add(proto.Op{K: "dump"}, meta{kind: "latedump"})
+		}
+	}
 	add(proto.Op{K: "flush"}, meta{kind: "other"})
 	add(proto.Op{K: "close"}, meta{kind: "other"})
 	out := core.RunScript(drv, dir, s.ops, 120*time.Second)
+	var mFail *model.DB // the state right after the refused statements (what their crash images must show)
 	m := model.NewDB()
 	grave := model.Graveyard{}
 	replay := func(fs *failStmt) interface{} {
@@ -585,6 +607,24 @@ func runC14(c *core.Ctx, drv string, idx int) {
 				c.Count("statement_did_not_fail", 1)
 				c.Inconclusive("not-refused", fmt.Sprintf("statement expected to fail (%s) succeeded — C08's business: %s", x.fs.cause, clip(model.RenderStmt(x.fs.st, model.Plain), 200)))
 				okSoFar = false
+			}
+		case "late":
+			if mFail == nil {
+				mFail = m.Clone()
+			}
+			if res.Err != "" {
+				c.Violation("C14:later-statement-in-the-same-session-failed:"+x.st.Kind+":"+errClass(res.Err), fmt.Sprintf("valid statement after the refused ones, same session, returned: %s", res.Err), replay(fails[len(fails)-1]))
+				okSoFar = false
+			} else if f, _, _, err := m.Apply(x.st); f != "" || err != nil {
+				c.Inconclusive("model", "late statement rejected by model")
+				okSoFar = false
+			}
+		case "latedump":
+			if df := m.CheckDump("C14:later-statements-same-session", res.Tables, grave, true); df != nil {
+				c.Violation(df.Sig, "after the refused statements, in the same session, rows were added and every row updated: "+df.What, replay(fails[len(fails)-1]))
+				okSoFar = false
+			} else {
+				c.Count("same_session_aftermath_ok", 1)
 			}
 		case "post":
 			fs := x.fs
@@ -638,10 +678,13 @@ func runC14(c *core.Ctx, drv string, idx int) {
 		return
 	}
 	lastFs := fails[len(fails)-1]
+	if mFail == nil {
+		mFail = m
+	}
 	// crash branch: every image taken right after a failing statement
 	var jobs []*crashJob
 	for i, fs := range fails {
-		jobs = append(jobs, &crashJob{dir: filepath.Join(dir, fmt.Sprintf("img%d", i+1)), cands: []*model.DB{m}, noSecond: true,
+		jobs = append(jobs, &crashJob{dir: filepath.Join(dir, fmt.Sprintf("img%d", i+1)), cands: []*model.DB{mFail}, noSecond: true,
 			label: "after_failed_" + fs.st.Kind, replay: replay(fs), classSig: ""})
 	}
 	before := c.Counter("images_verified")
